@@ -10,7 +10,7 @@ def finalsEff (o : List Eff) : List Resp :=
 
 /-- what the rendering coroutine's end puts on the wire side of the outer pipe -/
 def finalOfRes : Res → Option Resp
-  | .responds m => some m
+  | .responds m => some (if isResponseCode m.code then m else bare500)
   | .raises e => some (excToMessage e).1
   | .raisesCancelled => some bare500
   | .pending => none
@@ -19,13 +19,41 @@ theorem finalsEff_append (a b : List Eff) : finalsEff (a ++ b) = finalsEff a ++ 
   simp [finalsEff, List.filterMap_append]
 
 theorem finalsEff_excLogs (e : Exc) : finalsEff (excToMessage e).2 = [] := by
-  cases e <;> rfl
+  cases e with
+  | renderable c d => simp only [excToMessage]; split <;> rfl
+  | rendererRaises t => rfl
+  | rendererNone => rfl
+  | other t => rfl
+
+/-- a message that is no response, added to the live pipe, is the coroutine's failure -/
+theorem runDriving_responds_start (m : Resp) :
+    runDriving (.responds m) .start =
+      if isResponseCode m.code then (.done, [.send m true, .unregister, .cancelTask])
+      else (.done, [.log .unhandled, .send bare500 true, .unregister, .cancelTask]) := by
+  unfold runDriving
+  by_cases h : isResponseCode m.code = true
+  · simp only [h, Bool.true_or, ↓reduceIte]; rfl
+  · have h' : isResponseCode m.code = false := by simpa using h
+    simp only [h', Bool.false_or, Bool.false_eq_true, ↓reduceIte]
+    rfl
+
+theorem runDriving_responds_done (m : Resp) :
+    runDriving (.responds m) .done = (.done, [.log .lateResponse]) := by
+  unfold runDriving
+  have : ReqState.done.outer.isNone = true := rfl
+  simp only [this, Bool.or_true, ↓reduceIte]
+  rfl
 
 theorem runDriving_start (res : Res) :
     (runDriving res .start).1 = (if res = .pending then .start else .done) ∧
     finalsEff (runDriving res .start).2 = (finalOfRes res).toList := by
   cases res with
-  | responds m => exact ⟨rfl, rfl⟩
+  | responds m =>
+    rw [runDriving_responds_start]
+    by_cases h : isResponseCode m.code = true
+    · simp only [h, ↓reduceIte, finalOfRes]; exact ⟨rfl, rfl⟩
+    · have h' : isResponseCode m.code = false := by simpa using h
+      simp only [h', Bool.false_eq_true, ↓reduceIte, finalOfRes]; exact ⟨rfl, rfl⟩
   | raises e =>
     refine ⟨?_, ?_⟩
     · simp [runDriving, raise_start]
@@ -34,10 +62,77 @@ theorem runDriving_start (res : Res) :
   | raisesCancelled => exact ⟨rfl, rfl⟩
   | pending => exact ⟨rfl, rfl⟩
 
+/-- everything the end of a coroutine can cause on a freshly wired request -/
+inductive StartEff : Eff → Prop
+  | logUnhandled : StartEff (.log .unhandled)
+  | logRenderer : StartEff (.log .rendererFailed)
+  | send (m : Resp) : isResponseCode m.code = true → StartEff (.send m true)
+  | unregister : StartEff .unregister
+  | cancel : StartEff .cancelTask
+
+theorem excToMessage_code (e : Exc) : isResponseCode (excToMessage e).1.code = true := by
+  cases e with
+  | renderable c d =>
+    simp only [excToMessage]
+    split
+    · assumption
+    · rfl
+  | rendererRaises t => rfl
+  | rendererNone => rfl
+  | other t => rfl
+
+theorem excToMessage_logs (e : Exc) :
+    ∀ x ∈ (excToMessage e).2, x = .log .unhandled ∨ x = .log .rendererFailed := by
+  cases e with
+  | renderable c d =>
+    simp only [excToMessage]
+    split <;> simp
+  | rendererRaises t => simp [excToMessage]
+  | rendererNone => simp [excToMessage]
+  | other t => simp [excToMessage]
+
+theorem runDriving_start_effs (res : Res) : ∀ x ∈ (runDriving res .start).2, StartEff x := by
+  cases res with
+  | responds m =>
+    rw [runDriving_responds_start]
+    by_cases h : isResponseCode m.code = true
+    · simp only [h, ↓reduceIte, List.mem_cons, List.not_mem_nil, or_false]
+      rintro x (rfl | rfl | rfl)
+      · exact .send m h
+      · exact .unregister
+      · exact .cancel
+    · have h' : isResponseCode m.code = false := by simpa using h
+      simp only [h', Bool.false_eq_true, ↓reduceIte, List.mem_cons, List.not_mem_nil, or_false]
+      rintro x (rfl | rfl | rfl | rfl)
+      · exact .logUnhandled
+      · exact .send bare500 rfl
+      · exact .unregister
+      · exact .cancel
+  | raises e =>
+    simp only [runDriving, raise_start, List.mem_append, List.mem_cons, List.not_mem_nil, or_false]
+    rintro x (hx | rfl | rfl | rfl)
+    · rcases excToMessage_logs e x hx with rfl | rfl
+      · exact .logUnhandled
+      · exact .logRenderer
+    · exact .send _ (excToMessage_code e)
+    · exact .unregister
+    · exact .cancel
+  | raisesCancelled =>
+    have : runDriving .raisesCancelled .start =
+        (.done, [.log .unhandled, .send bare500 true, .unregister, .cancelTask]) := rfl
+    rw [this]
+    simp only [List.mem_cons, List.not_mem_nil, or_false]
+    rintro x (rfl | rfl | rfl | rfl)
+    · exact .logUnhandled
+    · exact .send bare500 rfl
+    · exact .unregister
+    · exact .cancel
+  | pending => simp [runDriving]
+
 theorem runDriving_done (res : Res) :
     (runDriving res .done).1 = .done ∧ finalsEff (runDriving res .done).2 = [] := by
   cases res with
-  | responds m => exact ⟨rfl, rfl⟩
+  | responds m => rw [runDriving_responds_done]; exact ⟨rfl, rfl⟩
   | raises e => simp [runDriving, raise_done, finalsEff]
   | raisesCancelled => exact ⟨rfl, rfl⟩
   | pending => exact ⟨rfl, rfl⟩
@@ -46,7 +141,7 @@ theorem runDriving_done (res : Res) :
 theorem runDriving_done_quiet (res : Res) :
     ∀ e ∈ (runDriving res .done).2, ∃ k, e = .log k := by
   cases res with
-  | responds m => intro e he; exact ⟨.lateResponse, by simpa [runDriving, respond_done] using he⟩
+  | responds m => intro e he; exact ⟨.lateResponse, by simpa [runDriving_responds_done] using he⟩
   | raises x => intro e he; exact ⟨.discarded, by simpa [runDriving, raise_done] using he⟩
   | raisesCancelled => intro e he; simp [runDriving, ReqState.done] at he
   | pending => intro e he; simp [runDriving] at he
